@@ -2,7 +2,7 @@
 # every seeded change against the quick check of its property (C03_b: against C19, see DESIGN §5)
 cd /verif
 : > .cache/logs/seeds_summary.txt
-for d in $(ls seeded | grep -E '^C[0-9][0-9](_[ab])?$'); do
+for d in $(ls seeded | grep -E '^C[0-9][0-9](_[a-f])?$'); do
   p=$(echo $d | cut -c1-3)
   [ "$d" = "C03_b" ] && p=C19
   sh tools/run_seed.sh $d $p > /tmp/seedrun_out.txt 2>&1
